@@ -17,6 +17,18 @@ PredChainsQuick == {<<pf>> : pf \in PredictorFilters} \cup {<<pf, x>> : pf \in P
                    \cup {<<x, pf>> : x \in {"LZW", "A85"}, pf \in PredictorFilters}
 GeoPred == {<<3, 2>>, <<5, 4>>}
 GeoPredQuick == {<<4, 3>>}
+OnlyPlainSpelling == {PlainSpelling}
+FSp == {"name", "abbr", "arr1", "indirect", "arrind"}
+PSp == {"direct", "indirect", "arr"}
+CSp == {"name", "indirect", "array"}
+GSp == {"direct", "indirect"}
+SpellingsFull == FSp \X PSp \X CSp \X GSp
+\* each entry varied on its own, and everything indirect at once
+SpellingsQuick == {<<f, "direct", "name", "direct">> : f \in FSp} \cup {<<"name", q, "name", "direct">> : q \in PSp}
+                  \cup {<<"name", "direct", c, "direct">> : c \in CSp} \cup {<<"name", "direct", "name", "indirect">>,
+                  <<"indirect", "indirect", "indirect", "indirect">>, <<"arrind", "arr", "array", "indirect">>}
+\* every export route that can be realised, with and without /DecodeParms
+RouteChains == {<<>>, <<"Flate">>, <<"LZWPNG">>, <<"DCT">>, <<"A85", "DCT">>, <<"LZW">>}
 PlainOnly == {"plain"}
 Encrypted == {"RC4", "AESV2"}
 \* every export route that can be realised: jpeg (DCT alone, DCT behind ASCII85), bitmap (unfiltered, Flate, LZW), raw (cmyk + LZW)
